@@ -1229,6 +1229,14 @@ def m_string_hash(ip, c, a):
     if w is None: raise Unsupported("Hash::hash into " + t.ty)
     b = m_as_bytes(ip, c, a).cell.v
     ip.call_fn(w, [h, Ref(Cell(b + [Cell(0xff)]))]); return UNIT
+def m_str_bytes(ip, c, a): return Agg('VecIntoIter', None, [Cell(m_as_bytes(ip, c, a).cell.v), Cell(0)])
+def m_vec_swap_remove(ip, c, a):
+    lst = vec_of(a[0]).fields[0].v; i = a[1]
+    if is_sym(i): raise Unsupported("symbolic swap_remove index")
+    if i >= len(lst): raise Panic("swap_remove index (is %d) should be < len (is %d)" % (i, len(lst)))
+    v = lst[i].v; last = lst.pop()
+    if i < len(lst): lst[i] = last
+    return v
 def m_into_bytes(ip, c, a): return Agg('Vec', None, [Cell(m_as_bytes(ip, c, a).cell.v)])
 
 def install12(ip):
@@ -1403,7 +1411,7 @@ def install13(ip):
         P(r'impl str>::split_whitespace$', m_split_whitespace), P(r'impl str>::lines$', m_lines), P(r'impl str>::char_indices$', m_char_indices),
         P(r'impl str>::get$', m_str_get_range), P(r'impl char>::len_utf8$', m_char_len_utf8),
         P(r'impl char>::is_ascii_digit$|impl char>::is_numeric$', m_char_pred(lambda ch: ch.isdigit())), P(r'impl char>::is_whitespace$|impl char>::is_ascii_whitespace$', m_char_pred(lambda ch: ch.isspace())),
-        P(r'impl char>::is_alphanumeric$|impl char>::is_ascii_alphanumeric$', m_char_pred(lambda ch: ch.isalnum())), P(r'impl char>::is_alphabetic$|impl char>::is_ascii_alphabetic$', m_char_pred(lambda ch: ch.isalpha())), P(r'as (std::io::)?Write>::write_all$', m_write_all), P(r'as (std::io::)?Read>::read_exact$', m_read_exact), P(r' as IntoFuture>::into_future$', m_into_future), P(r'^panic_fmt$|panicking::panic_fmt$', m_panic_fmt), P(r'^<(String|str) as Hash>::hash$', m_string_hash), P(r' as IntoKey>::into_key$', lambda ip, c, a: val_of_strlike(a[0])),
+        P(r'impl char>::is_alphanumeric$|impl char>::is_ascii_alphanumeric$', m_char_pred(lambda ch: ch.isalnum())), P(r'impl char>::is_alphabetic$|impl char>::is_ascii_alphabetic$', m_char_pred(lambda ch: ch.isalpha())), P(r'as (std::io::)?Write>::write_all$', m_write_all), P(r'as (std::io::)?Read>::read_exact$', m_read_exact), P(r' as IntoFuture>::into_future$', m_into_future), P(r'^panic_fmt$|panicking::panic_fmt$', m_panic_fmt), P(r'^<(String|str) as Hash>::hash$', m_string_hash), P(r'impl str>::bytes$', m_str_bytes), P(r'^Vec::swap_remove$', m_vec_swap_remove), P(r' as IntoKey>::into_key$', lambda ip, c, a: val_of_strlike(a[0])),
     ] + ip.pattern_models
     ip.pattern_models = ip.pattern_models + [(re.compile(r' as Clone>::clone$'), m_clone_generic)]
 
